@@ -573,6 +573,7 @@ class ProgGen(object):
         self.snapshot_done = False
         self.reflexive_using_done = False
         self.else_ctl_done = False
+        self.loop_where_done = False
         self.budget = max_stmts
         self.max_depth = max_depth
         self.params = list(params)            # [(name, ty)]
@@ -1085,6 +1086,8 @@ class ProgGen(object):
             choices += [('snapshot', 5)]
         if depth < self.max_depth and not self.else_ctl_done:
             choices += [('else_ctl', 4)]
+        if depth < self.max_depth and not self.loop_where_done:
+            choices += [('loop_where', 5)]
         if self.loop_depth == 0 and self.allow_mutation and self.create_in_loops and self.classes is CLASS_ATTRS \
                 and not self.reflexive_using_done:
             choices += [('reflexive_using', 4)]
@@ -1832,6 +1835,36 @@ class ProgGen(object):
         self.declare(S2, V('set', cls))
         for n in (c0, cin, c1, c2, k):
             self.declare(n, V('integer'))
+        return out
+
+    def st_loop_where(self, depth):
+        """the SAME select statement executed several times (inside a while) with a where clause whose sub-expressions that
+        do not mention `selected` CHANGE between the executions (`selected.n == i * 2`, `selected.n > lim - i`,
+        `... and not (want == 3)`): every execution evaluates the whole clause with the values of that moment"""
+        r = self.rng
+        self.loop_where_done = True
+        cls = r.choice(self.cls_names)
+        i, acc, want = self.fresh('i'), self.fresh('i'), self.fresh('i')
+        hv, sv = self.fresh(cls.lower()), self.fresh(cls.lower() + 's')
+        var, num = (lambda n: ['var', n]), (lambda n: ['int', n])
+        seln = ['attr', ['selected'], 'n']
+        w1 = r.choice([['bin', '==', seln, ['bin', '*', var(i), num(r.choice([1, 2, -1]))]],
+                       ['bin', '>', seln, ['bin', '-', num(r.choice([3, 5, 8])), ['bin', '*', var(i), num(2)]]],
+                       ['bin', '<=', seln, ['bin', '+', var(i), var(want)]]])
+        w2 = ['bin', 'and', r.choice([['bin', '>=', seln, ['bin', '-', var(i), num(2)]], ['bin', '!=', seln, var(i)]]),
+              ['un', 'not', ['bin', '==', var(want), num(r.choice([2, 3]))]]]
+        card = r.choice(['any', 'any', 'one']) if False else 'any'
+        body = [['select_from', card, hv, cls, w1],
+                ['if', ['un', 'not_empty', var(hv)], [['assign', acc, ['bin', '+', ['bin', '*', var(acc), num(3)], ['attr', var(hv), 'n']]]], [],
+                 [['assign', acc, ['bin', '-', var(acc), num(1)]]]],
+                ['select_from', 'many', sv, cls, w2],
+                ['assign', acc, ['bin', '+', ['bin', '*', var(acc), num(2)], ['un', 'cardinality', var(sv)]]],
+                ['assign', want, ['bin', '+', var(want), num(1)]],
+                ['assign', i, ['bin', '+', var(i), num(1)]]]
+        for n in (i, acc, want):
+            self.declare(n, V('integer'))
+        out = [['assign', i, num(r.choice([-1, 0, 0]))], ['assign', acc, num(0)], ['assign', want, num(r.choice([0, 1]))],
+               ['while', ['bin', '<', var(i), num(r.randint(3, 5))], body]]
         return out
 
     def st_else_ctl(self, depth):
